@@ -44,6 +44,9 @@ where
 }
 
 pub fn silence_panics() {
+    if std::env::var("VH_PANIC_VERBOSE").is_ok() {
+        return;
+    }
     std::panic::set_hook(Box::new(|_| {}));
 }
 
